@@ -7,11 +7,13 @@ from common import *
 def std_configs(rng, tier, chans=(None, 0, 1, 2, 7), slf=True, families=False, nrand=None):
     cs = []
     if nrand is None:
-        nrand = 1 if tier == "quick" else 8
+        nrand = 1 if tier == "quick" else 20
     for lib in gen_impl.LIBS:
         for ch in chans:
             for debut in (False, True):
                 impls = [gen_impl.probe_impl(lib, slf=slf and debut)]
+                if ch in (None, 2):
+                    impls.append(gen_impl.generic_impl(lib, slf=slf and debut))
                 impls += [gen_impl.random_impl(rng, lib) for _ in range(nrand if not debut else 0)]
                 for im in impls:
                     cs.append({"kind": "actor", "lib": lib, "attr": gen_impl.actor_attr(lib, ch, debut=debut), "item": im["item"],
@@ -36,6 +38,11 @@ def run_runtime(rep, pid, premise, theorem_apps, configs, search=None, search_wh
     rep.oblige(not bad)
     if problems or bad:
         rep.violation("theorems", {"what": "property theorem file no longer checks", "problems": problems, "hygiene": bad}, found=False)
+    if rep.tier == "thorough":
+        ok, out = coqchk(pid)
+        rep.checker_cmds.append("coqchk -o -silent -Q theories IT IT.Properties.%s" % pid)
+        if not rep.oblige(ok):
+            rep.violation("coqchk", {"what": "coqchk does not confirm the compiled theorems / reports axioms", "output": out}, found=False)
     cs = inst.expand_configs(configs, tag=pid.lower())
     terms, owners = [], []
     for c in cs:
@@ -129,3 +136,29 @@ def impl_side(rep, pid, runs, judge):
         elif len(rep.samples) < 9:
             rep.sample({"probe": " ".join(str(x) for x in a), "observation": {k: v for k, v in d.items() if k not in ("log", "returns")}})
     return known_seen
+
+
+def replay_generic(rep, path, judge_probe=None):
+    """./check Cxx --replay file: re-run the recorded input on the current tree and show what is observed now"""
+    import json, probe, hook, ir
+    d = json.load(open(path))
+    if "observation" in d and d["observation"].get("_args"):
+        a = d["observation"]["_args"]
+        now = probe.run_one(a)
+        print("probe %s ->" % " ".join(a), json.dumps({k: v for k, v in now.items() if k not in ("log", "returns")})[:1500])
+        if judge_probe:
+            out = judge_probe(a, now)
+            problems = out[0] if isinstance(out, tuple) else out
+            print("oracle:", problems or "holds")
+            if problems and not all(x.startswith("harness:") for x in problems):
+                rep.violation("replay", {"what": problems, "observation": now}, found=True)
+    elif "attr" in d and "item" in d:
+        r = hook.run_batch([(d.get("kind", "actor"), [d["attr"], d["item"]])])[0]
+        print("expansion class now:", r[0])
+        if r[0] == "TOKENS":
+            ex = ir.parse_expansion(r[1][0])
+            print("unrecognised parts:", ex["unknown"], [m["name"] for mdl in ex["models"] for m in mdl["methods"] if m.get("body_ir", ("",))[0] == "Unknown"])
+        print("recorded:", json.dumps(d.get("what"))[:800])
+    else:
+        print(json.dumps(d)[:2000])
+    return rep.finish()
